@@ -63,6 +63,9 @@ func c01GoContext(i int) pongo2.Context {
 		"up": &u, "pm": map[*c01Unexported]bool{&u: true}, "sk": c01Key{1, "a"}, "sm": map[c01Key]int{{1, "a"}: 1}, "fm": map[float64]string{2.5: "x"},
 		"bm": map[bool]int{true: 1}, "im": map[int]string{3: "three"}, "ak": [2]int{1, 2}, "am": map[[2]int]int{{1, 2}: 3}, "ifm": map[any]any{"a": 1, 2: "b", 2.5: "c"},
 		"um": map[uint8]string{200: "x"}, "i8m": map[int8]string{-128: "y"}, "stm": map[string]any{"x&y": 1}, "nilm": map[string]int(nil),
+		// functions that find nothing
+		"nilfn": func() any { return nil }, "nilval": func() *pongo2.Value { return pongo2.AsValue(nil) }, "nilvalp": func() *pongo2.Value { return nil },
+		"nilarg": func(x int) any { return nil }, "nilerr": func() (any, error) { return nil, nil }, "nilst": func() *c01Unexported { return nil },
 		// typed nil pointers, also to types that have methods
 		"npst": (*c01Stringer)(nil), "nptm": (*time.Time)(nil), "npun": (*c01Unexported)(nil), "npmap": (*map[string]int)(nil), "nperr": error(nil), "holder": c01Holder{},
 		"uurl": "http://пример-длинного-доменного-имени-для-проверки.рф/страница", "wurl": "www." + strings.Repeat("例", 40) + ".de x@y.de", "emo": "😀 héllo wörld 😀😀 naïve",
@@ -121,6 +124,8 @@ var c01Exprs = []string{"-s1", "n1 / z", "n1 % z", "f1 / 0.0", "n1 ^ n2", "big ^
 	"n1 == st", "lst == lst", "f1 < lst", "nil1 + nil1", "st + 1", "9223372036854775807 + 1", "99999999999999999999", "1.99999999999999999999", "n2 / -1", "n2 % -1",
 	"up in pm", "st in pm", "nil1 in pm", "sk in sm", "st in sm", "f1 in fm", "n1 in fm", "b1 in bm", "n1 in bm", "n1 in im", "s1 in im", "f1 in im", "ak in am", "lst in am", "nums in am",
 	"up in lst", "sk in sk", "n1 in ifm", "lst in ifm", "m in ifm", "st in ifm", "nil1 in ifm", "n1 in um", "n2 in i8m", "s1 in stm", "s1 in nilm", "up in up", "pm in pm", "am in am",
+	"nilfn().Name", "nilfn().x.y", "nilval().Name", "nilvalp().Name", "nilarg(2).Name", "nilerr().a", "nilst().Name", "nilst().Hello(1)", "nilfn()|upper", "nilfn().0", "nilfn()[0]", "nilfn().Name|length",
+	"nilval().x()", "nilfn()(1)", "st.NilValue.Name", "st.NilValue.x.y", "m.zz.Name", "lst.9.Name", "nil1.Name.x", "nilfn() in lst", "nilfn() == nil1",
 	"npst", "nptm", "npun", "npmap", "nperr", "holder.S", "holder.T", "holder.U", "holder.I", "holder.E", "npst|upper", "nptm|date:\"2006\"", "npun.Name", "npun.Hello(1)", "npst|length", "npst == npst",
 	"npst in lst", "holder.T|default:\"d\"", "npst|default_if_none:\"n\"", "npst|safe", "npst|escape", "npst + 1", "not npst", "nptm|time:\"15\"", "nptm < nptm", "npst|stringformat:\"%v\"",
 	"not (lst in ifm)", "up == up", "pm == pm", "sk == sk", "am == am", "ifm == ifm", "up in nil1", "nil1 in nil1"}
@@ -252,6 +257,13 @@ func runC01(r *run) {
 				}
 			}
 		}
+		// (h) the block options switched on and off between executions of one compiled template
+		for hi, src := range []string{"{% for i in nums %}  {% if i %}x{% endif %}\t{% endfor %}\n\n", "a\n{% if b1 %} \t {% endif %}\n  {% if b0 %}{% endif %}\n", "  {% set q = 1 %}\n{{ q }}\n\t{% with z=1 %} {% endwith %} ",
+			"{% if b1 %}\n{% endif %}", " {% if b1 %} {% endif %} ", "{% if b1 %}{% endif %}", "\n{% for i in nums %}\n{% endfor %}\n", "{% block b %} {% endblock %}\t{% comment %} {% endcomment %} \n"} {
+			for hist := 0; hist < 16; hist++ {
+				cases = append(cases, caseT{"opthist", append(w.args(src, nil), xf, xt, fmt.Sprint(hi*16+hist))})
+			}
+		}
 		// (c) the recorded finding: cyclic references between templates
 		for _, fs := range []map[string]string{
 			{"a.tpl": "{% include \"a.tpl\" %}"},
@@ -309,6 +321,38 @@ func execC01(r *run, c caseT) {
 	case "cyclic":
 		o, _ := w.render(src, true, ctx)
 		r.emit(c.op, c.args, o.obs)
+	case "opthist":
+		// four steps; before each one the two options are set from two bits of the history number
+		var hno int
+		fmt.Sscanf(c.args[9], "%d", &hno)
+		obs := "ok"
+		var pmsg any
+		func() {
+			defer func() {
+				if p := recover(); p != nil {
+					obs, pmsg = "panic", p
+				}
+			}()
+			tpl, err := pongo2.FromString(src)
+			if err != nil {
+				obs = "cerr"
+				return
+			}
+			for step := 0; step < 4; step++ {
+				bits := (hno >> (step % 2 * 2)) & 3
+				if step >= 2 {
+					bits = ((hno >> 2) + step) & 3
+				}
+				tpl.Options.TrimBlocks, tpl.Options.LStripBlocks = bits&1 != 0, bits&2 != 0
+				if _, xerr := tpl.Execute(c01GoContext(0)); xerr != nil {
+					obs = "xerr"
+				}
+			}
+		}()
+		id := r.emit(c.op, c.args, obs)
+		if pmsg != nil {
+			r.reject(id, "panic: "+fmt.Sprint(pmsg), nil)
+		}
 	case "gototal":
 		var i int
 		fmt.Sscanf(c.args[9], "%d", &i)
